@@ -88,15 +88,21 @@ impl Ty {
     }
 }
 
+/// Maximum number of list / non-null wrappers around a generated type.
+///
+/// Without a bound the nesting is only limited by the amount of input: the document
+/// would exceed the parser's recursion limit (or the generator would overflow the stack).
+const MAX_TYPE_NESTING: usize = 16;
+
 impl DocumentBuilder<'_> {
     /// Create an arbitrary `Ty`
     pub fn ty(&mut self) -> ArbitraryResult<Ty> {
-        self.generate_ty(true)
+        self.generate_ty(true, 0)
     }
 
     /// Choose an arbitrary existing `Ty` given a slice of existing types
     pub fn choose_ty(&mut self, existing_types: &[Ty]) -> ArbitraryResult<Ty> {
-        self.choose_ty_given_nullable(existing_types, true)
+        self.choose_ty_given_nullable(existing_types, true, 0)
     }
 
     /// Choose an arbitrary existing named `Ty` given a slice of existing types
@@ -113,8 +119,10 @@ impl DocumentBuilder<'_> {
         &mut self,
         existing_types: &[Ty],
         is_nullable: bool,
+        depth: usize,
     ) -> ArbitraryResult<Ty> {
-        let ty: Ty = match self.u.int_in_range(0..=2usize)? {
+        let kind = self.u.int_in_range(0..=2usize)?;
+        let ty: Ty = match if depth >= MAX_TYPE_NESTING { 0 } else { kind } {
             // Named type
             0 => {
                 let used_type_names: Vec<&Ty> = existing_types
@@ -125,17 +133,21 @@ impl DocumentBuilder<'_> {
                 self.u.choose(&used_type_names)?.to_owned().clone()
             }
             // List type
-            1 => Ty::List(Box::new(
-                self.choose_ty_given_nullable(existing_types, true)?,
-            )),
+            1 => Ty::List(Box::new(self.choose_ty_given_nullable(
+                existing_types,
+                true,
+                depth + 1,
+            )?)),
             // Non Null type
             2 => {
                 if is_nullable {
-                    Ty::NonNull(Box::new(
-                        self.choose_ty_given_nullable(existing_types, false)?,
-                    ))
+                    Ty::NonNull(Box::new(self.choose_ty_given_nullable(
+                        existing_types,
+                        false,
+                        depth + 1,
+                    )?))
                 } else {
-                    self.choose_ty_given_nullable(existing_types, is_nullable)?
+                    self.choose_ty_given_nullable(existing_types, is_nullable, depth + 1)?
                 }
             }
             _ => unreachable!(),
@@ -144,18 +156,19 @@ impl DocumentBuilder<'_> {
         Ok(ty)
     }
 
-    fn generate_ty(&mut self, is_nullable: bool) -> ArbitraryResult<Ty> {
-        let ty = match self.u.int_in_range(0..=2usize)? {
+    fn generate_ty(&mut self, is_nullable: bool, depth: usize) -> ArbitraryResult<Ty> {
+        let kind = self.u.int_in_range(0..=2usize)?;
+        let ty = match if depth >= MAX_TYPE_NESTING { 0 } else { kind } {
             // Named type
             0 => Ty::Named(self.name()?),
             // List type
-            1 => Ty::List(Box::new(self.generate_ty(true)?)),
+            1 => Ty::List(Box::new(self.generate_ty(true, depth + 1)?)),
             // Non Null type
             2 => {
                 if is_nullable {
-                    Ty::NonNull(Box::new(self.generate_ty(false)?))
+                    Ty::NonNull(Box::new(self.generate_ty(false, depth + 1)?))
                 } else {
-                    self.generate_ty(is_nullable)?
+                    self.generate_ty(is_nullable, depth + 1)?
                 }
             }
             _ => unreachable!(),
